@@ -113,7 +113,7 @@ func enumerateImages(ops []*DirOp, start map[string][]byte, o imageOpts) []Image
 					f[name] = content
 					add(Image{Files: f, OpIdx: op.Idx, Win: op.Win, Variant: variant, Desc: fmt.Sprintf("crash during persist of %s: %s", name, variant), Snaps: snaps, InSnap: isSnap, Torn: name})
 				}
-				pts := prefixPoints(len(final), o.everyK && isSnap, o.dense)
+				pts := prefixPoints(len(final), o.everyK && isSnap && len(final) <= 300, o.dense)
 				if !isSnap {
 					// a torn segment file is referenced by no completed snapshot
 					pts = []int{0, len(final) / 2, len(final) - 1}
@@ -405,7 +405,7 @@ func crashPostRun(r *Run, res *Result) {
 		capW = 24
 	}
 	if thorough {
-		capW *= 5
+		capW *= 3
 	}
 	wantW := map[int]bool{}
 	var tornIdx, otherIdx []int
@@ -426,6 +426,9 @@ func crashPostRun(r *Run, res *Result) {
 		}
 	}
 	for i := range ims {
+		if overTime(res) {
+			break
+		}
 		if v := r.checkImage(&ims[i], i, wantW[i], cs); v != nil {
 			res.Violation = v
 			if res.Extra == nil {
